@@ -304,11 +304,13 @@ Proof.
   lia.
 Qed.
 
-Lemma send_Inv s tr p dial len tag ok dok sid :
-  Inv s tr -> Inv (fst (h_send s p dial len tag ok dok sid)) (tr ++ snd (h_send s p dial len tag ok dok sid)).
+Lemma send_Inv s tr p dial len tag fb ok dok sid :
+  Inv s tr -> Inv (fst (h_send s p dial len tag fb ok dok sid)) (tr ++ snd (h_send s p dial len tag fb ok dok sid)).
 Proof.
   intros I. unfold h_send. simp_sets.
   assert (T1 : forall r, terms r [OSent (next_rid s)] = 0%nat) by reflexivity.
+  assert (T1o : forall r, terms r [OSent (next_rid s); OOpen sid p] = 0%nat) by reflexivity.
+  assert (T1d : forall r, terms r [OSent (next_rid s); ODial p] = 0%nat) by reflexivity.
   assert (T2 : forall r c, terms r [OSent (next_rid s); OFail (next_rid s) c]
                            = if N.eqb r (next_rid s) then 1%nat else 0%nat).
   { intros r c. rewrite terms_cons_nonterm by reflexivity. apply terms_one_fail. }
@@ -317,15 +319,18 @@ Proof.
     constructor; [intros r|intros r| ]; unf; simp_sets; cbn [andb]; rewrite ?T2; try lia; try (split; [lia|intros _; lia]). }
   destruct (memN p (peers s)); [destruct ok|destruct dial; cbn [negb]; [destruct dok|]]; cbn [fst snd]; auto.
   - eapply (Inv_step true); [exact I| |].
-    + constructor; [intros r|intros r| ]; unf; simp_sets; cbn [andb]; rewrite ?T1, ?map_app, ?cnt_app; cbn [map snd rid_po po_req q_rid];
+    + constructor; [intros r|intros r| ]; unf; simp_sets; cbn [andb]; rewrite ?T1, ?T1o, ?T1d, ?map_app, ?cnt_app; cbn [map snd rid_po po_req q_rid];
         rewrite ?cnt_cons, ?cnt_nil; try lia; try (split; [lia|intros _; lia]).
     + simp_sets. intros po H. apply in_app_or in H. apply in_or_app. destruct H as [H|[<-|[]]].
       * left. exact (inv_po _ _ I po H).
       * right. left. reflexivity.
   - eapply (Inv_step true); [exact I| |intros po H; exact (inv_po _ _ I po H)].
-    constructor; [intros r|intros r| ]; unf; simp_sets; cbn [andb]; rewrite ?T1, ?map_app, ?cnt_app; cbn [map snd rid_d q_rid];
+    constructor; [intros r|intros r| ]; unf; simp_sets; cbn [andb]; rewrite ?T1, ?T1o, ?T1d, ?map_app, ?cnt_app; cbn [map snd rid_d q_rid];
       rewrite ?cnt_cons, ?cnt_nil; try lia; try (split; [lia|intros _; lia]).
 Qed.
+
+Lemma terms_map_open r p l : terms r (map (fun po => OOpen (po_sid po) p) l) = 0%nat.
+Proof. induction l; [reflexivity|]. cbn [map]. rewrite terms_cons_nonterm by reflexivity. exact IHl. Qed.
 
 Lemma split_cnt {A} (f : A -> N) n l r :
   (cnt r (map f (firstn n l)) + cnt r (map f (skipn n l)) = cnt r (map f l))%nat.
@@ -352,7 +357,7 @@ Proof.
         try lia; try (split; [lia|discriminate]).
     + eapply (Inv_step false); [exact I| |].
       * constructor; [intros r|intros r| ]; unf; simp_sets; cbn [andb];
-          rewrite ?(terms_map_fail rid_d), ?map_app, ?cnt_app, ?number_pouts_rids, ?map_map; cbn [snd];
+          rewrite ?terms_app, ?terms_map_open, ?(terms_map_fail rid_d), ?map_app, ?cnt_app, ?number_pouts_rids, ?map_map; cbn [snd];
           try specialize (P r); try specialize (Sp r);
           change (map (fun x0 : N * req => q_rid (snd x0)) (x :: okl)) with (map rid_d (x :: okl));
           try lia; try (split; [lia|discriminate]).
@@ -478,11 +483,11 @@ Proof.
   - intros r Hr. specialize (C r Hr). rewrite terms_app in *. rewrite terms_cons_nonterm by apply Hx. exact C.
 Qed.
 
-Lemma opened_body_Inv cf0 s tr po c gate now :
+Lemma opened_body_Inv cf0 s tr po c gate now neg :
   Inv s tr -> In po (pouts s) ->
-  Inv (fst (opened_body cf0 s po c gate now)) (tr ++ snd (opened_body cf0 s po c gate now)).
+  Inv (fst (opened_body cf0 s po c gate now neg)) (tr ++ snd (opened_body cf0 s po c gate now neg)).
 Proof.
-  intros I Hin. unfold opened_body.
+  intros I Hin. unfold opened_body. cbn [q_rid q_len q_tag q_fb].
   pose proof (fun r => cnt_drop_in rid_po r po (pouts s) Hin) as D.
   (* dropping the entry alone *)
   assert (M0 : Moves false s (set_pouts s (drop_po po (pouts s))) []).
@@ -502,17 +507,17 @@ Proof.
     - constructor; [intros r|intros r|]; unf; simp_sets; cbn [andb]; rewrite ?T, ?map_app, ?cnt_app; cbn [map];
         rewrite ?E, ?cnt_cons, ?cnt_nil; try specialize (D r); unfold rid_po, drop_po in *; try lia; try (split; [lia|discriminate]).
     - simp_sets. intros po' H. exact (proj1 (drop_po_other _ _ _ _ I H)). }
-  destruct (max_size cf0 <? q_len (po_req po)); [apply Hsettle|].
+  destruct (max_size cf0 <? _); [apply Hsettle|].
   destruct gate as [|[g|g|]]; try apply Hsettle; apply Hpush; try reflexivity.
 Qed.
 
-Lemma opened_Inv cf0 s tr sid c gate now :
-  Inv s tr -> Inv (fst (h_opened cf0 s sid c gate now)) (tr ++ snd (h_opened cf0 s sid c gate now)).
+Lemma opened_Inv cf0 s tr sid c gate now neg :
+  Inv s tr -> Inv (fst (h_opened cf0 s sid c gate now neg)) (tr ++ snd (h_opened cf0 s sid c gate now neg)).
 Proof.
   intros I. unfold h_opened. destruct (find_po sid (pouts s)) as [po|] eqn:F; cbn [fst snd];
     [|rewrite app_nil_r; exact I].
-  pose proof (opened_body_Inv cf0 s tr po c gate now I (proj1 (find_in _ _ _ F))) as H.
-  destruct (opened_body _ _ _ _ _ _) as [s1 o]. cbn [fst snd] in *.
+  pose proof (opened_body_Inv cf0 s tr po c gate now neg I (proj1 (find_in _ _ _ F))) as H.
+  destruct (opened_body _ _ _ _ _ _ _) as [s1 o]. cbn [fst snd] in *.
   apply Inv_cons_quiet; [reflexivity|exact H].
 Qed.
 
@@ -550,13 +555,28 @@ Proof.
   exact (proj1 (complete_Inv s tr f _ I (fut_in_not_po _ _ _ I (find_fut_in _ _ _ F)))).
 Qed.
 
+Lemma fb_resp_terms r f o : terms r (fb_resp f o) = 0%nat.
+Proof.
+  unfold fb_resp. destruct (f_neg f =? 0); [reflexivity|].
+  induction o as [|x o IH]; [reflexivity|]. cbn [flat_map]. rewrite terms_app, IH. destruct x; reflexivity.
+Qed.
+
+Lemma Inv_app_quiet s tr o x : (forall r, terms r x = 0%nat) -> Inv s (tr ++ o) -> Inv s (tr ++ o ++ x).
+Proof.
+  intros Hx [A B C D]. constructor; auto.
+  - intros r. specialize (A r). rewrite !terms_app in *. rewrite Hx. lia.
+  - intros r Hr. specialize (C r Hr). rewrite !terms_app in *. rewrite Hx. lia.
+Qed.
+
 Lemma read_Inv s tr c res :
   Inv s tr -> Inv (fst (fut_read s c res)) (tr ++ snd (fut_read s c res)).
 Proof.
   intros I. unfold fut_read. destruct (find_fut c (futs s)) as [f|] eqn:F; cbn [fst snd];
     [|rewrite app_nil_r; exact I].
   destruct (f_wait f); cbn [fst snd]; [|rewrite app_nil_r; exact I].
-  exact (proj1 (complete_Inv s tr f _ I (fut_in_not_po _ _ _ I (find_fut_in _ _ _ F)))).
+  pose proof (proj1 (complete_Inv s tr f res I (fut_in_not_po _ _ _ I (find_fut_in _ _ _ F)))) as H.
+  destruct (complete s f res) as [s1 o]. cbn [fst snd] in *.
+  apply Inv_app_quiet; [intros r; apply fb_resp_terms|exact H].
 Qed.
 
 Lemma advance_Inv s tr now :
@@ -594,7 +614,7 @@ Proof.
 Qed.
 
 (* ---- inbound side: never touches the ledger ---- *)
-Lemma inopen_same cf0 s p c : same_ledger s (fst (h_inopen cf0 s p c)) /\ snd (h_inopen cf0 s p c) = [].
+Lemma inopen_same cf0 s p c neg : same_ledger s (fst (h_inopen cf0 s p c neg)) /\ snd (h_inopen cf0 s p c neg) = [].
 Proof.
   unfold h_inopen. destruct (match max_inb cf0 with Some m => m <=? inbound_load s | None => false end);
     cbn [fst snd]; [split; [apply same_ledger_refl|reflexivity]|].
@@ -607,7 +627,7 @@ Proof.
   unfold h_inread. destruct (find_rd c (rdrs s)) as [rd|]; cbn [fst snd];
     [|split; [apply same_ledger_refl|reflexivity]].
   simp_sets. destruct (memN (r_peer rd) (peers s) && memP (r_peer rd, r_irid rd) (inb s));
-    [destruct good|]; cbn [fst snd]; unfold same_ledger; simp_sets; repeat split; try lia; try reflexivity.
+    [destruct good; [destruct (r_neg rd =? 0)|]|]; cbn [fst snd]; unfold same_ledger; simp_sets; repeat split; try lia; try reflexivity.
 Qed.
 
 Lemma uresp_same cf0 s irid len tag fb gate now :
@@ -654,8 +674,8 @@ Lemma step_Inv cf0 s en e tr :
 Proof.
   intros I. destruct e; cbn [step].
   - (* send *)
-    pose proof (send_Inv s tr p dial len tag (open_ok p en) (p <? ndial cf0) (next_sid en) I) as H.
-    destruct (h_send _ _ _ _ _ _ _ _) as [s1 o]. exact H.
+    match goal with |- context [h_send s p dial len tag ?fb0 ?a0 ?b0 ?c0] => pose proof (send_Inv s tr p dial len tag fb0 a0 b0 c0 I) as H end.
+    destruct (h_send _ _ _ _ _ _ _ _ _) as [s1 o]. exact H.
   - pose proof (cancel_Inv s tr rid I) as H. destruct (h_cancel s rid) as [s1 o]. exact H.
   - destruct (conn_of p en); cbn [fst snd]; [rewrite app_nil_r; exact I|].
     match goal with |- context [h_established s p ?n ?sd] => pose proof (established_Inv s tr p n sd I) as H end.
@@ -664,8 +684,8 @@ Proof.
     pose proof (closed_Inv s tr p I) as H. destruct (h_closed s p) as [s1 o]. exact H.
   - pose proof (dialfail_Inv s tr p I) as H. destruct (h_dialfail s p) as [s1 o]. exact H.
   - destruct (nth_mod k (opens en)) as [[sid q]|]; cbn [fst snd]; [|rewrite app_nil_r; exact I].
-    pose proof (opened_Inv cf0 s tr sid (N.of_nat (length (chans en))) (N.min gate 2) (now en) I) as H.
-    destruct (h_opened _ _ _ _ _ _) as [s1 o]. exact H.
+    pose proof (opened_Inv cf0 s tr sid (N.of_nat (length (chans en))) (N.min gate 2) (now en) neg I) as H.
+    destruct (h_opened _ _ _ _ _ _ _) as [s1 o]. exact H.
   - destruct (nth_mod k (opens en)) as [[sid q]|]; cbn [fst snd]; [|rewrite app_nil_r; exact I].
     pose proof (openfail_Inv s tr sid unsupported I) as H. destruct (h_openfail _ _ _) as [s1 o]. exact H.
   - (* unblock *)
@@ -712,8 +732,8 @@ Proof.
     rewrite app_assoc. eapply Inv_same_ledger; [exact H| |intros r; apply adv_out_terms].
     unfold rsp_advance, same_ledger. simp_sets. repeat split; try lia; try reflexivity.
   - destruct (conn_of p en); cbn [fst snd]; [|rewrite app_nil_r; exact I].
-    pose proof (inopen_same cf0 s p (N.of_nat (length (chans en)))) as [H T].
-    destruct (h_inopen _ _ _ _) as [s1 o]. cbn [fst snd] in *. subst o.
+    pose proof (inopen_same cf0 s p (N.of_nat (length (chans en))) neg) as [H T].
+    destruct (h_inopen _ _ _ _ _) as [s1 o]. cbn [fst snd] in *. subst o.
     eapply Inv_same_ledger; [exact I|exact H|reflexivity].
   - destruct (chans en) as [|ch0 chs] eqn:CH; cbn [fst snd]; [rewrite app_nil_r; exact I|].
     destruct (nth_error _ _) as [ch|]; cbn [fst snd]; [|rewrite app_nil_r; exact I].
@@ -728,6 +748,9 @@ Proof.
   - destruct (nth_mod k (hpend en)) as [irid|]; cbn [fst snd]; [|rewrite app_nil_r; exact I].
     unfold h_urej. cbn [fst snd]. eapply Inv_same_ledger; [exact I| |reflexivity].
     unfold same_ledger. simp_sets. repeat split; try lia; try reflexivity.
+  - cbn [fst snd]. rewrite app_nil_r. exact I.
+  - unfold h_burn. cbn [fst snd]. eapply Inv_same_ledger; [exact I| |reflexivity]. unfold same_ledger; simp_sets; repeat split; try lia; try reflexivity.
+  - cbn [fst snd]. rewrite app_nil_r. exact I.
   - cbn [fst snd]. rewrite app_nil_r. exact I.
 Qed.
 
@@ -872,8 +895,8 @@ Proof.
   exact (Keeps_trans _ _ _ _ _ _ K IH).
 Qed.
 
-Lemma send_Keeps cs s p dial len tag ok dok sid :
-  Keeps cs s (fst (h_send s p dial len tag ok dok sid)) (snd (h_send s p dial len tag ok dok sid)).
+Lemma send_Keeps cs s p dial len tag fb ok dok sid :
+  Keeps cs s (fst (h_send s p dial len tag fb ok dok sid)) (snd (h_send s p dial len tag fb ok dok sid)).
 Proof.
   unfold h_send. simp_sets.
   assert (T2 : forall c, answered (next_rid s) [OSent (next_rid s); OFail (next_rid s) c]).
@@ -881,14 +904,15 @@ Proof.
   assert (Hs : forall o r, In (OSent r) (OSent (next_rid s) :: o) -> nosent o -> r = next_rid s).
   { intros o r [E|H] Hn; [congruence|destruct (Hn r H)]. }
   assert (N1 : forall c, nosent [OFail (next_rid s) c]) by (intros c r [H|[]]; discriminate).
-  assert (N0 : nosent []) by (intros r []).
+  assert (N0 : nosent [OOpen sid p]) by (intros r [H|[]]; discriminate).
+  assert (N0d : nosent [ODial p]) by (intros r [H|[]]; discriminate).
   destruct (memN p (peers s)); [destruct ok|destruct dial; cbn [negb]; [destruct dok|]]; cbn [fst snd];
     constructor; unfold owed in *; unf; simp_sets;
     try (intros g H; left; exact H);
     try (intros r H; left; rewrite ?map_app, ?cnt_app; lia).
-  - intros r H. apply (Hs [] r H) in N0. subst. left. rewrite map_app, cnt_app. cbn [map snd]. rewrite cnt_cons, N.eqb_refl. lia.
+  - intros r H. apply (Hs _ r H) in N0. subst. left. rewrite map_app, cnt_app. cbn [map snd]. rewrite cnt_cons, N.eqb_refl. lia.
   - intros r H. apply (Hs _ r H) in N1. subst. right. left. apply T2.
-  - intros r H. apply (Hs [] r H) in N0. subst. left. rewrite map_app, cnt_app. cbn [map rid_d snd q_rid]. rewrite cnt_cons, N.eqb_refl. lia.
+  - intros r H. apply (Hs _ r H) in N0d. subst. left. rewrite map_app, cnt_app. cbn [map rid_d snd q_rid]. rewrite cnt_cons, N.eqb_refl. lia.
   - intros r H. apply (Hs _ r H) in N1. subst. right. left. apply T2.
   - intros r H. apply (Hs _ r H) in N1. subst. right. left. apply T2.
 Qed.
@@ -912,11 +936,12 @@ Proof.
       rewrite (terms_map_fail rid_d).
       destruct (Nat.eq_dec (cnt r (map rid_d (skipn ok (d0 :: mine)))) 0); [left; lia|right; left; lia].
     + intros r H. exfalso. exact (nosent_map_fail rid_d _ _ r H).
-    + intros r H. specialize (P r). specialize (Sp r). rewrite (terms_map_fail rid_d).
+    + intros r H. specialize (P r). specialize (Sp r). rewrite terms_app, terms_map_open, (terms_map_fail rid_d).
       rewrite map_app, cnt_app, map_map. cbn [snd].
       change (map (fun x0 : N * req => q_rid (snd x0)) (x :: okl)) with (map rid_d (x :: okl)).
       destruct (Nat.eq_dec (cnt r (map rid_d (skipn ok (d0 :: mine)))) 0); [left; lia|right; left; lia].
-    + intros r H. exfalso. exact (nosent_map_fail rid_d _ _ r H).
+    + intros r H. exfalso. apply in_app_or in H. destruct H as [H|H]; [exact (nosent_map_fail rid_d _ _ r H)|].
+      apply in_map_iff in H. destruct H as [po [E _]]. discriminate.
 Qed.
 
 Lemma closed_Keeps cs s p : Keeps cs s (fst (h_closed s p)) (snd (h_closed s p)).
@@ -962,10 +987,10 @@ Qed.
 Lemma Keeps_set_pouts cs s l : Keeps cs s (set_pouts s l) [].
 Proof. constructor; unfold owed; unf; simp_sets; [intros r H; left; exact H|intros r []|intros g H; left; exact H]. Qed.
 
-Lemma opened_body_Keeps cs cf0 s po c gate now :
-  Keeps cs s (fst (opened_body cf0 s po c gate now)) (snd (opened_body cf0 s po c gate now)).
+Lemma opened_body_Keeps cs cf0 s po c gate now neg :
+  Keeps cs s (fst (opened_body cf0 s po c gate now neg)) (snd (opened_body cf0 s po c gate now neg)).
 Proof.
-  unfold opened_body.
+  unfold opened_body. cbn [q_rid q_len q_tag q_fb].
   assert (Hsettle : forall res, res <> RErr E_CANCELED ->
      Keeps cs s (fst (settle (set_pouts s (drop_po po (pouts s))) (po_peer po) (q_rid (po_req po)) res))
                 (snd (settle (set_pouts s (drop_po po (pouts s))) (po_peer po) (q_rid (po_req po)) res))).
@@ -978,7 +1003,7 @@ Proof.
     - intros r H. left. exact H.
     - intros r H. destruct (Hn r H).
     - intros g' H. apply in_app_or in H. destruct H as [H|[<-|[]]]; [left; exact H|right; left; exact Hg]. }
-  destruct (max_size cf0 <? q_len (po_req po)); [apply Hsettle; discriminate|].
+  destruct (max_size cf0 <? _); [apply Hsettle; discriminate|].
   destruct gate as [|[g|g|]]; try (apply Hsettle; discriminate); apply Hpush; try reflexivity.
   - intros r [].
   - intros r [H|[]]. discriminate.
@@ -993,12 +1018,12 @@ Proof.
   - exact K3.
 Qed.
 
-Lemma opened_Keeps cs cf0 s sid c gate now :
-  Keeps cs s (fst (h_opened cf0 s sid c gate now)) (snd (h_opened cf0 s sid c gate now)).
+Lemma opened_Keeps cs cf0 s sid c gate now neg :
+  Keeps cs s (fst (h_opened cf0 s sid c gate now neg)) (snd (h_opened cf0 s sid c gate now neg)).
 Proof.
   unfold h_opened. destruct (find_po sid (pouts s)) as [po|]; cbn [fst snd]; [|apply Keeps_refl].
-  pose proof (opened_body_Keeps cs cf0 s po c gate now) as H.
-  destruct (opened_body _ _ _ _ _ _) as [s1 o]. cbn [fst snd] in *.
+  pose proof (opened_body_Keeps cs cf0 s po c gate now neg) as H.
+  destruct (opened_body _ _ _ _ _ _ _) as [s1 o]. cbn [fst snd] in *.
   apply Keeps_cons_quiet; [reflexivity|discriminate|exact H].
 Qed.
 
@@ -1032,11 +1057,31 @@ Proof.
   destruct (f_wait f); cbn [fst snd]; [apply Keeps_refl|]. apply complete_Keeps. discriminate.
 Qed.
 
+Lemma fb_resp_nosent f o : nosent (fb_resp f o).
+Proof.
+  unfold fb_resp. destruct (f_neg f =? 0); [intros r []|].
+  intros r H. apply in_flat_map in H. destruct H as [x [_ H]]. destruct x; cbn in H; try tauto.
+  destruct H as [H|[]]. discriminate.
+Qed.
+
+Lemma Keeps_app_quiet cs s s' o x :
+  nosent x -> (forall r, terms r x = 0%nat) -> Keeps cs s s' o -> Keeps cs s s' (o ++ x).
+Proof.
+  intros Hn Ht [K1 K2 K3]. constructor; unfold answered in *.
+  - intros r H. rewrite terms_app, Ht. destruct (K1 r H) as [A|[A|A]]; [left; exact A|right; left; lia|right; right; exact A].
+  - intros r H. apply in_app_or in H. destruct H as [H|H]; [|destruct (Hn r H)].
+    rewrite terms_app, Ht. destruct (K2 r H) as [A|[A|A]]; [left; exact A|right; left; lia|right; right; exact A].
+  - exact K3.
+Qed.
+
 Lemma read_Keeps cs s c res :
   res <> RErr E_CANCELED -> Keeps cs s (fst (fut_read s c res)) (snd (fut_read s c res)).
 Proof.
   intros Hne. unfold fut_read. destruct (find_fut c (futs s)) as [f|]; cbn [fst snd]; [|apply Keeps_refl].
-  destruct (f_wait f); cbn [fst snd]; [|apply Keeps_refl]. apply complete_Keeps. intros E. congruence.
+  destruct (f_wait f); cbn [fst snd]; [|apply Keeps_refl].
+  pose proof (complete_Keeps cs s f res (fun E => False_ind _ (Hne E))) as K.
+  destruct (complete s f res) as [s1 o]. cbn [fst snd] in *.
+  apply Keeps_app_quiet; [apply fb_resp_nosent|intros r; apply fb_resp_terms|exact K].
 Qed.
 
 Lemma cancel_Keeps cs s rid : Keeps (rid :: cs) s (fst (h_cancel s rid)) (snd (h_cancel s rid)).
@@ -1056,7 +1101,7 @@ Qed.
 Lemma inread_nosent s c good len tag : nosent (snd (h_inread s c good len tag)).
 Proof.
   unfold h_inread. destruct (find_rd c (rdrs s)) as [rd|]; cbn [fst snd]; [|intros r []].
-  destruct (memN (r_peer rd) (peers _) && memP _ _); [destruct good|]; cbn [fst snd];
+  destruct (memN (r_peer rd) (peers _) && memP _ _); [destruct good; [destruct (r_neg rd =? 0)|]|]; cbn [fst snd];
     intros r H; cbn in H; repeat destruct H as [H|H]; try discriminate; auto.
 Qed.
 
@@ -1093,8 +1138,8 @@ Lemma step_Keeps cf0 s en e cs :
   Keeps (cs_step cs e) s (fst (fst (fst (step cf0 (s, en) e)))) (snd (fst (step cf0 (s, en) e))).
 Proof.
   intros G. destruct e; cbn [step cs_step].
-  - pose proof (send_Keeps cs s p dial len tag (open_ok p en) (p <? ndial cf0) (next_sid en)) as H.
-    destruct (h_send _ _ _ _ _ _ _ _) as [s1 o]. exact H.
+  - match goal with |- context [h_send s p dial len tag ?fb0 ?a0 ?b0 ?c0] => pose proof (send_Keeps cs s p dial len tag fb0 a0 b0 c0) as H end.
+    destruct (h_send _ _ _ _ _ _ _ _ _) as [s1 o]. exact H.
   - pose proof (cancel_Keeps cs s rid) as H. destruct (h_cancel s rid) as [s1 o]. exact H.
   - destruct (conn_of p en); cbn [fst snd]; [apply Keeps_refl|].
     match goal with |- context [h_established s p ?n ?sd] => pose proof (established_Keeps cs s p n sd) as H end.
@@ -1103,8 +1148,8 @@ Proof.
     pose proof (closed_Keeps cs s p) as H. destruct (h_closed s p) as [s1 o]. exact H.
   - pose proof (dialfail_Keeps cs s p) as H. destruct (h_dialfail s p) as [s1 o]. exact H.
   - destruct (nth_mod k (opens en)) as [[sid q]|]; cbn [fst snd]; [|apply Keeps_refl].
-    pose proof (opened_Keeps cs cf0 s sid (N.of_nat (length (chans en))) (N.min gate 2) (now en)) as H.
-    destruct (h_opened _ _ _ _ _ _) as [s1 o]. exact H.
+    pose proof (opened_Keeps cs cf0 s sid (N.of_nat (length (chans en))) (N.min gate 2) (now en) neg) as H.
+    destruct (h_opened _ _ _ _ _ _ _) as [s1 o]. exact H.
   - destruct (nth_mod k (opens en)) as [[sid q]|]; cbn [fst snd]; [|apply Keeps_refl].
     pose proof (openfail_Keeps cs s sid unsupported) as H. destruct (h_openfail _ _ _) as [s1 o]. exact H.
   - destruct (chans en) as [|ch0 chs] eqn:CH; cbn [fst snd]; [apply Keeps_refl|].
@@ -1157,8 +1202,8 @@ Proof.
     eapply Keeps_trans; [exact H|]. apply Keeps_same; [|apply adv_out_nosent].
     unfold rsp_advance, same_ledger. simp_sets. repeat split; try lia; try reflexivity.
   - destruct (conn_of p en); cbn [fst snd]; [|apply Keeps_refl].
-    pose proof (inopen_same cf0 s p (N.of_nat (length (chans en)))) as [H T].
-    destruct (h_inopen _ _ _ _) as [s1 o]. cbn [fst snd] in *. subst o.
+    pose proof (inopen_same cf0 s p (N.of_nat (length (chans en))) neg) as [H T].
+    destruct (h_inopen _ _ _ _ _) as [s1 o]. cbn [fst snd] in *. subst o.
     apply Keeps_same; [exact H|intros r []].
   - destruct (chans en) as [|ch0 chs] eqn:CH; cbn [fst snd]; [apply Keeps_refl|].
     destruct (nth_error _ _) as [ch|]; cbn [fst snd]; [|apply Keeps_refl].
@@ -1175,6 +1220,9 @@ Proof.
   - destruct (nth_mod k (hpend en)) as [irid|]; cbn [fst snd]; [|apply Keeps_refl].
     unfold h_urej. cbn [fst snd]. apply Keeps_same; [|intros r []].
     unfold same_ledger. simp_sets. repeat split; try lia; try reflexivity.
+  - cbn [fst snd]. apply Keeps_refl.
+  - unfold h_burn. cbn [fst snd]. apply Keeps_same; [|intros r []]. unfold same_ledger; simp_sets; repeat split; try lia; try reflexivity.
+  - cbn [fst snd]. apply Keeps_refl.
   - cbn [fst snd]. apply Keeps_refl.
 Qed.
 
@@ -1244,7 +1292,7 @@ Proof.
   pose proof (IH s1 res) as [C D]. destruct (complete_all s1 l res) as [s2 o2]. cbn [fst] in *.
   split; congruence.
 Qed.
-Lemma send_io s p dial len tag ok dok sid : same_io s (fst (h_send s p dial len tag ok dok sid)).
+Lemma send_io s p dial len tag fb ok dok sid : same_io s (fst (h_send s p dial len tag fb ok dok sid)).
 Proof. unfold h_send, same_io. io_crush. Qed.
 Lemma established_io s p ok sid : same_io s (fst (h_established s p ok sid)).
 Proof. unfold h_established, same_io. io_crush. Qed.
@@ -1254,17 +1302,17 @@ Lemma dialfail_io s p : same_io s (fst (h_dialfail s p)).
 Proof. unfold h_dialfail, same_io. cbn. split; reflexivity. Qed.
 Lemma openfail_io s sid u : same_io s (fst (h_openfail s sid u)).
 Proof. unfold h_openfail, same_io. io_crush. Qed.
-Lemma opened_io cf0 s sid c gate now : same_io s (fst (h_opened cf0 s sid c gate now)).
+Lemma opened_io cf0 s sid c gate now neg : same_io s (fst (h_opened cf0 s sid c gate now neg)).
 Proof.
   unfold h_opened. destruct (find_po sid (pouts s)) as [po|]; [|split; reflexivity].
-  assert (B : same_io s (fst (opened_body cf0 s po c gate now))).
-  { unfold opened_body.
+  assert (B : same_io s (fst (opened_body cf0 s po c gate now neg))).
+  { unfold opened_body. cbn [q_rid q_len q_tag q_fb].
     assert (H : forall res, same_io s (fst (settle (set_pouts s (drop_po po (pouts s))) (po_peer po) (q_rid (po_req po)) res))).
     { intros res. destruct (settle_io (set_pouts s (drop_po po (pouts s))) (po_peer po) (q_rid (po_req po)) res) as [A B].
       split; [rewrite A|rewrite B]; reflexivity. }
-    destruct (max_size cf0 <? q_len (po_req po)); [apply H|].
+    destruct (max_size cf0 <? _); [apply H|].
     destruct gate as [|[g|g|]]; try apply H; split; reflexivity. }
-  destruct (opened_body _ _ _ _ _ _) as [s1 o]. exact B.
+  destruct (opened_body _ _ _ _ _ _ _) as [s1 o]. exact B.
 Qed.
 Lemma unblock_io cf0 s c now : same_io s (fst (fut_unblock cf0 s c now)).
 Proof.
@@ -1280,7 +1328,8 @@ Qed.
 Lemma read_io s c res : same_io s (fst (fut_read s c res)).
 Proof.
   unfold fut_read. destruct (find_fut c (futs s)) as [f|]; [|split; reflexivity].
-  destruct (f_wait f); [apply complete_io|split; reflexivity].
+  destruct (f_wait f); [|split; reflexivity].
+  pose proof (complete_io s f res) as H. destruct (complete s f res) as [s1 o]. exact H.
 Qed.
 Lemma cancel_io s rid : same_io s (fst (h_cancel s rid)).
 Proof.
@@ -1300,7 +1349,7 @@ Proof. unfold load_ok. destruct (max_inb cf0); [lia|auto]. Qed.
 Lemma filter_len {A} (g : A -> bool) l : (length (filter g l) <= length l)%nat.
 Proof. induction l as [|a l IH]; cbn; [lia|destruct (g a); cbn; lia]. Qed.
 
-Lemma inopen_load cf0 s p c : load_ok cf0 s -> load_ok cf0 (fst (h_inopen cf0 s p c)).
+Lemma inopen_load cf0 s p c neg : load_ok cf0 s -> load_ok cf0 (fst (h_inopen cf0 s p c neg)).
 Proof.
   unfold h_inopen, load_ok. destruct (max_inb cf0) as [m|] eqn:M; [|auto].
   destruct (m <=? inbound_load s) eqn:E; cbn [fst]; [auto|]. apply N.leb_gt in E.
@@ -1345,8 +1394,8 @@ Lemma step_load cf0 s en e :
   load_ok cf0 s -> load_ok cf0 (fst (fst (fst (step cf0 (s, en) e)))).
 Proof.
   intros L. destruct e; cbn [step].
-  - pose proof (send_io s p dial len tag (open_ok p en) (p <? ndial cf0) (next_sid en)) as H.
-    destruct (h_send _ _ _ _ _ _ _ _) as [s1 o]. exact (load_same_io _ _ _ H L).
+  - match goal with |- context [h_send s p dial len tag ?fb0 ?a0 ?b0 ?c0] => pose proof (send_io s p dial len tag fb0 a0 b0 c0) as H end.
+    destruct (h_send _ _ _ _ _ _ _ _ _) as [s1 o]. exact (load_same_io _ _ _ H L).
   - pose proof (cancel_io s rid) as H. destruct (h_cancel s rid) as [s1 o]. exact (load_same_io _ _ _ H L).
   - destruct (conn_of p en); cbn [fst]; [exact L|].
     match goal with |- context [h_established s p ?n ?sd] => pose proof (established_io s p n sd) as H end.
@@ -1355,8 +1404,8 @@ Proof.
     pose proof (closed_io s p) as H. destruct (h_closed s p) as [s1 o]. exact (load_same_io _ _ _ H L).
   - pose proof (dialfail_io s p) as H. destruct (h_dialfail s p) as [s1 o]. exact (load_same_io _ _ _ H L).
   - destruct (nth_mod k (opens en)) as [[sid q]|]; cbn [fst]; [|exact L].
-    pose proof (opened_io cf0 s sid (N.of_nat (length (chans en))) (N.min gate 2) (now en)) as H.
-    destruct (h_opened _ _ _ _ _ _) as [s1 o]. exact (load_same_io _ _ _ H L).
+    pose proof (opened_io cf0 s sid (N.of_nat (length (chans en))) (N.min gate 2) (now en) neg) as H.
+    destruct (h_opened _ _ _ _ _ _ _) as [s1 o]. exact (load_same_io _ _ _ H L).
   - destruct (nth_mod k (opens en)) as [[sid q]|]; cbn [fst]; [|exact L].
     pose proof (openfail_io s sid unsupported) as H. destruct (h_openfail _ _ _) as [s1 o]. exact (load_same_io _ _ _ H L).
   - destruct (chans en) as [|ch0 chs] eqn:CH; cbn [fst]; [exact L|].
@@ -1399,8 +1448,8 @@ Proof.
     pose proof (filter_len (fun r => match s_w r with Some (_, _, dl) => negb (dl <=? now en + dt) | None => true end) (rsps s1)).
     lia.
   - destruct (conn_of p en); cbn [fst]; [|exact L].
-    pose proof (inopen_load cf0 s p (N.of_nat (length (chans en))) L) as H.
-    destruct (h_inopen _ _ _ _) as [s1 o]. exact H.
+    pose proof (inopen_load cf0 s p (N.of_nat (length (chans en))) neg L) as H.
+    destruct (h_inopen _ _ _ _ _) as [s1 o]. exact H.
   - destruct (chans en) as [|ch0 chs] eqn:CH; cbn [fst]; [exact L|].
     destruct (nth_error _ _) as [ch|]; cbn [fst]; [|exact L].
     destruct (negb (c_out ch)); cbn [fst]; [|exact L].
@@ -1412,6 +1461,9 @@ Proof.
   - destruct (nth_mod k (hpend en)) as [irid|]; cbn [fst]; [|exact L].
     unfold h_urej. cbn [fst]. apply (load_le cf0 s); [|exact L].
     unfold inbound_load, drop_rs. simp_sets. pose proof (filter_len (fun r => negb (s_irid r =? irid)) (rsps s)). lia.
+  - cbn [fst]. exact L.
+  - unfold h_burn. cbn [fst]. exact L.
+  - cbn [fst]. exact L.
   - cbn [fst]. exact L.
 Qed.
 
@@ -1538,8 +1590,8 @@ Proof.
 Qed.
 
 (* ---- the handlers ---- *)
-Lemma send_Inv3 s p dial len tag ok dok sid :
-  Inv3 s -> Inv3 (fst (h_send s p dial len tag ok dok sid)).
+Lemma send_Inv3 s p dial len tag fb ok dok sid :
+  Inv3 s -> Inv3 (fst (h_send s p dial len tag fb ok dok sid)).
 Proof.
   intros [C P]. unfold h_send. simp_sets.
   destruct (memN p (peers s)) eqn:Mp; [destruct ok|destruct dial; cbn [negb]; [destruct dok|]]; cbn [fst];
@@ -1635,10 +1687,10 @@ Proof.
   - intros x H. apply in_removeP in H. exact (P x (proj1 H)).
 Qed.
 
-Lemma opened_body_Inv3 cf0 s tr po c gate now :
-  Inv s tr -> Inv3 s -> In po (pouts s) -> Inv3 (fst (opened_body cf0 s po c gate now)).
+Lemma opened_body_Inv3 cf0 s tr po c gate now neg :
+  Inv s tr -> Inv3 s -> In po (pouts s) -> Inv3 (fst (opened_body cf0 s po c gate now neg)).
 Proof.
-  intros I [C P] Hin. unfold opened_body.
+  intros I [C P] Hin. unfold opened_body. cbn [q_rid q_len q_tag q_fb].
   pose proof (inv_po _ _ I po Hin) as Hact.
   assert (Hsettle : forall res,
      Inv3 (fst (settle (set_pouts s (drop_po po (pouts s))) (po_peer po) (q_rid (po_req po)) res))).
@@ -1658,16 +1710,16 @@ Proof.
     - destruct (cover_drop_po s tr po x I Hin (C x H) Hne) as [[po' [A B]]|[g' [A B]]];
         [left; exists po'|right; exists g']; simp_sets; auto.
       split; [apply in_or_app; left; exact A|exact B]. }
-  destruct (max_size cf0 <? q_len (po_req po)); [apply Hsettle|].
+  destruct (max_size cf0 <? _); [apply Hsettle|].
   destruct gate as [|[g|g|]]; try apply Hsettle; apply Hpush; reflexivity.
 Qed.
 
-Lemma opened_Inv3 cf0 s tr sid c gate now :
-  Inv s tr -> Inv3 s -> Inv3 (fst (h_opened cf0 s sid c gate now)).
+Lemma opened_Inv3 cf0 s tr sid c gate now neg :
+  Inv s tr -> Inv3 s -> Inv3 (fst (h_opened cf0 s sid c gate now neg)).
 Proof.
   intros I I3. unfold h_opened. destruct (find_po sid (pouts s)) as [po|] eqn:F; cbn [fst]; [|exact I3].
-  pose proof (opened_body_Inv3 cf0 s tr po c gate now I I3 (proj1 (find_in _ _ _ F))) as H.
-  destruct (opened_body _ _ _ _ _ _) as [s1 o]. exact H.
+  pose proof (opened_body_Inv3 cf0 s tr po c gate now neg I I3 (proj1 (find_in _ _ _ F))) as H.
+  destruct (opened_body _ _ _ _ _ _ _) as [s1 o]. exact H.
 Qed.
 
 Lemma Inv3_futs_map s (h : fut -> fut) :
@@ -1700,7 +1752,8 @@ Lemma read_Inv3 s tr c res : Inv s tr -> Inv3 s -> Inv3 (fst (fut_read s c res))
 Proof.
   intros I I3. unfold fut_read. destruct (find_fut c (futs s)) as [f|] eqn:F; cbn [fst]; [|exact I3].
   destruct (f_wait f); cbn [fst]; [|exact I3].
-  exact (complete_Inv3 s tr f _ I I3 (fun g Hg E => eq_sym (fut_unique _ _ _ _ I (find_fut_in _ _ _ F) Hg E))).
+  pose proof (complete_Inv3 s tr f res I I3 (fun g Hg E => eq_sym (fut_unique _ _ _ _ I (find_fut_in _ _ _ F) Hg E))) as H.
+  destruct (complete s f res) as [s1 o]. exact H.
 Qed.
 
 Lemma advance_Inv3 s tr now : Inv s tr -> Inv3 s -> Inv3 (fst (fut_advance s now)).
@@ -1731,8 +1784,8 @@ Lemma step_Inv3 cf0 s en e tr :
   Inv s tr -> Inv3 s -> Inv3 (fst (fst (fst (step cf0 (s, en) e)))).
 Proof.
   intros I I3. destruct e; cbn [step].
-  - pose proof (send_Inv3 s p dial len tag (open_ok p en) (p <? ndial cf0) (next_sid en) I3) as H.
-    destruct (h_send _ _ _ _ _ _ _ _) as [s1 o]. exact H.
+  - match goal with |- context [h_send s p dial len tag ?fb0 ?a0 ?b0 ?c0] => pose proof (send_Inv3 s p dial len tag fb0 a0 b0 c0 I3) as H end.
+    destruct (h_send _ _ _ _ _ _ _ _ _) as [s1 o]. exact H.
   - pose proof (cancel_Inv3 s tr rid I I3) as H. destruct (h_cancel s rid) as [s1 o]. exact H.
   - destruct (conn_of p en); cbn [fst]; [exact I3|].
     match goal with |- context [h_established s p ?n ?sd] => pose proof (established_Inv3 s p n sd I3) as H end.
@@ -1741,8 +1794,8 @@ Proof.
     pose proof (closed_Inv3 s p I3) as H. destruct (h_closed s p) as [s1 o]. exact H.
   - pose proof (dialfail_Inv3 s p I3) as H. destruct (h_dialfail s p) as [s1 o]. exact H.
   - destruct (nth_mod k (opens en)) as [[sid q]|]; cbn [fst]; [|exact I3].
-    pose proof (opened_Inv3 cf0 s tr sid (N.of_nat (length (chans en))) (N.min gate 2) (now en) I I3) as H.
-    destruct (h_opened _ _ _ _ _ _) as [s1 o]. exact H.
+    pose proof (opened_Inv3 cf0 s tr sid (N.of_nat (length (chans en))) (N.min gate 2) (now en) neg I I3) as H.
+    destruct (h_opened _ _ _ _ _ _ _) as [s1 o]. exact H.
   - destruct (nth_mod k (opens en)) as [[sid q]|]; cbn [fst]; [|exact I3].
     pose proof (openfail_Inv3 s tr sid unsupported I I3) as H. destruct (h_openfail _ _ _) as [s1 o]. exact H.
   - destruct (chans en) as [|ch0 chs] eqn:CH; cbn [fst]; [exact I3|].
@@ -1785,8 +1838,8 @@ Proof.
     apply (Inv3_same_ledger s1); [exact H|].
     unfold rsp_advance, same_ledger. simp_sets. repeat split; try lia; try reflexivity.
   - destruct (conn_of p en); cbn [fst]; [|exact I3].
-    pose proof (inopen_same cf0 s p (N.of_nat (length (chans en)))) as [H _].
-    destruct (h_inopen _ _ _ _) as [s1 o]. exact (Inv3_same_ledger _ _ I3 H).
+    pose proof (inopen_same cf0 s p (N.of_nat (length (chans en))) neg) as [H _].
+    destruct (h_inopen _ _ _ _ _) as [s1 o]. exact (Inv3_same_ledger _ _ I3 H).
   - destruct (chans en) as [|ch0 chs] eqn:CH; cbn [fst]; [exact I3|].
     destruct (nth_error _ _) as [ch|]; cbn [fst]; [|exact I3].
     destruct (negb (c_out ch)); cbn [fst]; [|exact I3].
@@ -1800,6 +1853,9 @@ Proof.
   - destruct (nth_mod k (hpend en)) as [irid|]; cbn [fst]; [|exact I3].
     unfold h_urej. cbn [fst]. apply (Inv3_same_ledger s); [exact I3|].
     unfold same_ledger. simp_sets. repeat split; try lia; try reflexivity.
+  - cbn [fst]. exact I3.
+  - unfold h_burn. cbn [fst]. apply (Inv3_same_ledger s); [exact I3|]. unfold same_ledger; simp_sets; repeat split; try lia; try reflexivity.
+  - cbn [fst]. exact I3.
   - cbn [fst]. exact I3.
 Qed.
 
@@ -1835,7 +1891,7 @@ Qed.
 
 (* plain = neither ResponseReceived, RequestReceived nor the binding ghost *)
 Definition plain (x : out) : bool :=
-  match x with OSent _ | OFail _ _ | OWire _ _ _ | OFeed _ _ => true | _ => false end.
+  match x with OSent _ | OFail _ _ | OWire _ _ _ | OFeed _ _ | ODial _ | OOpen _ _ | OFbResp _ _ | OFbReq _ _ => true | _ => false end.
 Definition plainl (o : list out) : Prop := forallb plain o = true.
 
 Lemma plainl_nil : plainl [].
@@ -1866,14 +1922,16 @@ Proof.
   apply plainl_app; assumption.
 Qed.
 
-Lemma send_plain s p dial len tag ok dok sid : plainl (snd (h_send s p dial len tag ok dok sid)).
+Lemma send_plain s p dial len tag fb ok dok sid : plainl (snd (h_send s p dial len tag fb ok dok sid)).
 Proof. unfold h_send. repeat match goal with |- context [if ?x then _ else _] => destruct x end; reflexivity. Qed.
 
 Lemma established_plain s p ok sid : plainl (snd (h_established s p ok sid)).
 Proof.
   unfold h_established. destruct (memN p (peers s)); [reflexivity|].
   destruct (filter _ (dials s)) as [|d0 mine]; [reflexivity|].
-  destruct (firstn ok (d0 :: mine)); cbn [snd]; apply (plainl_map_fail (fun d : N * req => q_rid (snd d))).
+  destruct (firstn ok (d0 :: mine)); cbn [snd]; [apply (plainl_map_fail (fun d : N * req => q_rid (snd d)))|].
+  apply plainl_app; [apply (plainl_map_fail (fun d : N * req => q_rid (snd d)))|].
+  unfold plainl. induction (number_pouts p sid (p0 :: l)); cbn; auto.
 Qed.
 
 Lemma closed_plain s p : plainl (snd (h_closed s p)).
@@ -1885,9 +1943,9 @@ Proof. unfold h_dialfail. cbn [snd]. apply (plainl_map_fail (fun d : N * req => 
 Lemma openfail_plain s sid u : plainl (snd (h_openfail s sid u)).
 Proof. unfold h_openfail. destruct (find_po sid (pouts s)); reflexivity. Qed.
 
-Lemma opened_body_plain cf0 s po c gate now : plainl (snd (opened_body cf0 s po c gate now)).
+Lemma opened_body_plain cf0 s po c gate now neg : plainl (snd (opened_body cf0 s po c gate now neg)).
 Proof.
-  unfold opened_body. destruct (max_size cf0 <? _); [apply settle_err_plain|].
+  unfold opened_body. cbn [q_rid q_len q_tag q_fb]. destruct (max_size cf0 <? _); [apply settle_err_plain|].
   destruct gate as [|[g|g|]]; try apply settle_err_plain; reflexivity.
 Qed.
 
@@ -1908,7 +1966,12 @@ Qed.
 Lemma read_err_plain s c e : plainl (snd (fut_read s c (RErr e))).
 Proof.
   unfold fut_read. destruct (find_fut c (futs s)) as [f|]; [|reflexivity].
-  destruct (f_wait f); [apply complete_err_plain|reflexivity].
+  destruct (f_wait f); [|reflexivity].
+  pose proof (complete_err_plain s f e) as H. destruct (complete s f (RErr e)) as [s1 o]. cbn [snd] in *.
+  apply plainl_app; [exact H|]. unfold fb_resp. destruct (f_neg f =? 0); [reflexivity|].
+  unfold plainl in *. induction o as [|x o IH]; [reflexivity|]. cbn [forallb flat_map] in *.
+  apply andb_prop in H. destruct H as [Hx Ho]. rewrite forallb_app, (IH Ho), andb_true_r.
+  destruct x; try discriminate; reflexivity.
 Qed.
 
 Lemma advance_plain s now : plainl (snd (fut_advance s now)).
@@ -1946,21 +2009,31 @@ Proof.
   destruct (d <=? now); [|reflexivity]. unfold feed. destruct (s_fb a); reflexivity.
 Qed.
 
+(* the fallback annotation that accompanies a ResponseReceived / RequestReceived *)
+Definition fbl_resp (f : fut) : list out := if f_neg f =? 0 then [] else [OFbResp (rid_f f) (f_neg f)].
+Definition fbl_req (rd : rdr) : list out := if r_neg rd =? 0 then [] else [OFbReq (r_irid rd) (r_neg rd)].
+Lemma fbl_resp_plain f : plainl (fbl_resp f).
+Proof. unfold fbl_resp. destruct (f_neg f =? 0); reflexivity. Qed.
+Lemma fbl_req_plain rd : plainl (fbl_req rd).
+Proof. unfold fbl_req. destruct (r_neg rd =? 0); reflexivity. Qed.
+
 (* a delivered response: exactly the verdict of the future that holds the carrier *)
 Lemma read_ok_shape s c len tag :
   plainl (snd (fut_read s c (ROk len tag))) \/
-  exists f, find_fut c (futs s) = Some f /\ snd (fut_read s c (ROk len tag)) = [OResp (rid_f f) len tag].
+  exists f, find_fut c (futs s) = Some f /\
+            snd (fut_read s c (ROk len tag)) = OResp (rid_f f) len tag :: fbl_resp f.
 Proof.
   unfold fut_read. destruct (find_fut c (futs s)) as [f|]; [|left; reflexivity].
   destruct (f_wait f); [|left; reflexivity]. unfold complete, settle.
-  destruct (_ && _); cbn [snd]; [right; exists f; split; reflexivity|left; reflexivity].
+  destruct (_ && _); cbn [snd]; [right; exists f; split; [reflexivity|]|left; unfold fb_resp; destruct (f_neg f =? 0); reflexivity].
+  unfold verdict, fb_resp, fbl_resp, rid_f. destruct (f_neg f =? 0); reflexivity.
 Qed.
 
 (* a request handed to the user: read from the reader of that carrier, which is gone afterwards *)
 Lemma inread_good_shape s c len tag :
   (snd (h_inread s c true len tag) = [] \/
    exists rd, find_rd c (rdrs s) = Some rd /\
-              snd (h_inread s c true len tag) = [OReq (r_irid rd) (r_peer rd) len tag]) /\
+              snd (h_inread s c true len tag) = OReq (r_irid rd) (r_peer rd) len tag :: fbl_req rd) /\
   rdrs (fst (h_inread s c true len tag)) = drop_rd c (rdrs s).
 Proof.
   unfold h_inread. destruct (find_rd c (rdrs s)) as [rd|] eqn:F.
@@ -2021,7 +2094,7 @@ Ltac futs_crush :=
          | |- context [match ?x with _ => _ end] => destruct x
          end; cbn; reflexivity.
 
-Lemma send_futs s p dial len tag ok dok sid : futs (fst (h_send s p dial len tag ok dok sid)) = futs s.
+Lemma send_futs s p dial len tag fb ok dok sid : futs (fst (h_send s p dial len tag fb ok dok sid)) = futs s.
 Proof. unfold h_send. futs_crush. Qed.
 Lemma established_futs s p ok sid : futs (fst (h_established s p ok sid)) = futs s.
 Proof. unfold h_established. futs_crush. Qed.
@@ -2032,7 +2105,7 @@ Proof. reflexivity. Qed.
 Lemma openfail_futs s sid u : futs (fst (h_openfail s sid u)) = futs s.
 Proof. unfold h_openfail. futs_crush. Qed.
 
-Lemma send_Q s p dial len tag ok dok sid : Q s (fst (h_send s p dial len tag ok dok sid)) (snd (h_send s p dial len tag ok dok sid)).
+Lemma send_Q s p dial len tag fb ok dok sid : Q s (fst (h_send s p dial len tag fb ok dok sid)) (snd (h_send s p dial len tag fb ok dok sid)).
 Proof. split; [|split]; [apply plain_calm, send_plain|apply FutsPrev_same, send_futs|apply send_io]. Qed.
 Lemma established_Q s p ok sid : Q s (fst (h_established s p ok sid)) (snd (h_established s p ok sid)).
 Proof. split; [|split]; [apply plain_calm, established_plain|apply FutsPrev_same, established_futs|apply established_io]. Qed.
@@ -2079,14 +2152,16 @@ Qed.
 Lemma read_calm s c res : calml (snd (fut_read s c res)).
 Proof.
   destruct res as [l t|e]; [|apply plain_calm, read_err_plain].
-  destruct (read_ok_shape s c l t) as [H|[f [_ H]]]; [apply plain_calm; exact H|]. rewrite H. reflexivity.
+  destruct (read_ok_shape s c l t) as [H|[f [_ H]]]; [apply plain_calm; exact H|]. rewrite H.
+  unfold calml. cbn [forallb calm]. apply (plain_calm _ (fbl_resp_plain f)).
 Qed.
 
 Lemma read_Q s c res : Q s (fst (fut_read s c res)) (snd (fut_read s c res)).
 Proof.
   split; [|split]; [apply read_calm| |apply read_io].
   unfold fut_read. destruct (find_fut c (futs s)) as [f|]; [|apply FutsPrev_same; reflexivity].
-  destruct (f_wait f); [apply complete_FutsPrev|apply FutsPrev_same; reflexivity].
+  destruct (f_wait f); [|apply FutsPrev_same; reflexivity].
+  pose proof (complete_FutsPrev s f res) as H. destruct (complete s f res) as [s1 o]. exact H.
 Qed.
 
 Lemma advance_Q s now : Q s (fst (fut_advance s now)) (snd (fut_advance s now)).
@@ -2118,11 +2193,11 @@ Lemma rsp_gate_Q s c ok : Q s (fst (rsp_gate s c ok)) (snd (rsp_gate s c ok)).
 Proof. apply same_ledger_Q; [apply rsp_gate_same|apply plain_calm, rsp_gate_plain|apply rsp_gate_rdrs]. Qed.
 
 (* the three handlers that are not quiet *)
-Lemma opened_body_futs cf0 s po c gate now g :
-  In g (futs (fst (opened_body cf0 s po c gate now))) ->
+Lemma opened_body_futs cf0 s po c gate now neg g :
+  In g (futs (fst (opened_body cf0 s po c gate now neg))) ->
   In g (futs s) \/ (f_chan g = c /\ rid_f g = rid_po po).
 Proof.
-  unfold opened_body.
+  unfold opened_body. cbn [q_rid q_len q_tag q_fb].
   assert (Hs : forall res, In g (futs (fst (settle (set_pouts s (drop_po po (pouts s))) (po_peer po) (q_rid (po_req po)) res))) -> In g (futs s)).
   { intros res. unfold settle. destruct (_ && _); cbn [fst]; simp_sets; auto. }
   destruct (max_size cf0 <? _); [intros H0; left; exact (Hs _ H0)|].
@@ -2130,18 +2205,18 @@ Proof.
     apply in_app_or in H0; destruct H0 as [H0|[<-|[]]]; auto.
 Qed.
 
-Lemma opened_body_rdrs cf0 s po c gate now : rdrs (fst (opened_body cf0 s po c gate now)) = rdrs s.
+Lemma opened_body_rdrs cf0 s po c gate now neg : rdrs (fst (opened_body cf0 s po c gate now neg)) = rdrs s.
 Proof.
-  unfold opened_body.
+  unfold opened_body. cbn [q_rid q_len q_tag q_fb].
   assert (Hs : forall res, rdrs (fst (settle (set_pouts s (drop_po po (pouts s))) (po_peer po) (q_rid (po_req po)) res)) = rdrs s).
   { intros res. apply (settle_io (set_pouts s (drop_po po (pouts s)))). }
   destruct (max_size cf0 <? _); [apply Hs|]. destruct gate as [|[x|x|]]; try apply Hs; reflexivity.
 Qed.
 
-Lemma inopen_shape cf0 s p c :
-  snd (h_inopen cf0 s p c) = [] /\ futs (fst (h_inopen cf0 s p c)) = futs s /\
-  (rdrs (fst (h_inopen cf0 s p c)) = rdrs s \/
-   exists irid, rdrs (fst (h_inopen cf0 s p c)) = rdrs s ++ [mkRd p irid c]).
+Lemma inopen_shape cf0 s p c neg :
+  snd (h_inopen cf0 s p c neg) = [] /\ futs (fst (h_inopen cf0 s p c neg)) = futs s /\
+  (rdrs (fst (h_inopen cf0 s p c neg)) = rdrs s \/
+   exists irid, rdrs (fst (h_inopen cf0 s p c neg)) = rdrs s ++ [mkRd p irid c neg]).
 Proof.
   unfold h_inopen. destruct (match max_inb cf0 with Some m => _ | None => _ end); cbn [fst snd]; [auto|].
   simp_sets. destruct (memN p (peers s)); cbn [fst snd]; simp_sets; repeat split; auto.
@@ -2205,9 +2280,9 @@ Lemma step_facts cf0 s en e :
   StepFacts s en (fst (fst (fst r))) (snd (fst (fst r))) (snd (fst r)) (snd r).
 Proof.
   destruct e; cbn [step].
-  - pose proof (send_Q s p dial len tag (open_ok p en) (p <? ndial cf0) (next_sid en)) as H.
-    destruct (h_send _ _ _ _ _ _ _ _) as [s1 o]. cbn [fst snd] in *. apply Q_facts; [exact H|].
-    destruct (memN p (peers s)); [destruct (conn_of p en) as [[|]|]|]; cbn [chans nch]; unfold nch; cbn [chans]; lia.
+  - match goal with |- context [h_send s p dial len tag ?fb0 ?a0 ?b0 ?c0] => pose proof (send_Q s p dial len tag fb0 a0 b0 c0) as H end.
+    destruct (h_send _ _ _ _ _ _ _ _ _) as [s1 o]. cbn [fst snd] in *. apply Q_facts; [exact H|].
+    destruct (memN p (peers s)); [destruct (conn_of p en); [destruct (open_ok p en)|]|]; unfold nch; cbn [chans]; lia.
   - pose proof (cancel_Q s rid) as H. destruct (h_cancel s rid) as [s1 o]. cbn [fst snd] in *.
     apply Q_facts; [exact H|lia].
   - destruct (conn_of p en); cbn [fst snd]; [apply Q_facts; [apply Q_refl|lia]|].
@@ -2221,11 +2296,11 @@ Proof.
   - (* opened *)
     destruct (nth_mod k (opens en)) as [[sid q]|]; cbn [fst snd]; [|apply Q_facts; [apply Q_refl|lia]].
     unfold h_opened. destruct (find_po sid (pouts s)) as [po|].
-    + pose proof (opened_body_futs cf0 s po (N.of_nat (length (chans en))) (N.min gate 2) (now en)) as F.
-      pose proof (opened_body_rdrs cf0 s po (N.of_nat (length (chans en))) (N.min gate 2) (now en)) as R.
-      pose proof (opened_body_plain cf0 s po (N.of_nat (length (chans en))) (N.min gate 2) (now en)) as P.
-      destruct (opened_body _ _ _ _ _ _) as [s1 o]. cbn [fst snd] in *.
-      assert (L : nch en < nch (mkE (next_sid en) (conns en) (filter (fun x => negb (fst x =? sid)) (opens en))
+    + pose proof (opened_body_futs cf0 s po (N.of_nat (length (chans en))) (N.min gate 2) (now en) neg) as F.
+      pose proof (opened_body_rdrs cf0 s po (N.of_nat (length (chans en))) (N.min gate 2) (now en) neg) as R.
+      pose proof (opened_body_plain cf0 s po (N.of_nat (length (chans en))) (N.min gate 2) (now en) neg) as P.
+      destruct (opened_body _ _ _ _ _ _ _) as [s1 o]. cbn [fst snd] in *.
+      assert (L : nch en < nch (mkE (aux_of en) (next_sid en) (conns en) (filter (fun x => negb (fst x =? sid)) (opens en))
                                   (chans en ++ [mkCh (N.min gate 2)
                                      (existsb (fun x => match x with OWire _ _ _ => true | _ => false end)
                                               (OBind (N.of_nat (length (chans en))) (q_rid (po_req po)) :: o)) true])
@@ -2305,9 +2380,9 @@ Proof.
     destruct H as (A & B & C). split; [apply calml_app; [exact A|apply plain_calm, adv_out_plain]|split; [exact B|exact C]].
   - (* inbound substream *)
     destruct (conn_of p en); cbn [fst snd]; [|apply Q_facts; [apply Q_refl|lia]].
-    pose proof (inopen_shape cf0 s p (N.of_nat (length (chans en)))) as (O & F & R).
-    destruct (h_inopen _ _ _ _) as [s1 o]. cbn [fst snd] in *. subst o.
-    assert (L : nch en < nch (mkE (next_sid en) (conns en) (opens en) (chans en ++ [mkCh (N.min gate 2) false false])
+    pose proof (inopen_shape cf0 s p (N.of_nat (length (chans en))) neg) as (O & F & R).
+    destruct (h_inopen _ _ _ _ _) as [s1 o]. cbn [fst snd] in *. subst o.
+    assert (L : nch en < nch (mkE (aux_of en) (next_sid en) (conns en) (opens en) (chans en ++ [mkCh (N.min gate 2) false false])
                                 (now en) (hpend en))).
     { unfold nch. cbn [chans]. rewrite app_length. cbn [length]. lia. }
     constructor; [lia| | | |].
@@ -2325,18 +2400,19 @@ Proof.
     pose proof (inread_futs s c (len <=? max_size cf0) len tag) as F.
     assert (O : plainl (snd (h_inread s c (len <=? max_size cf0) len tag)) \/
                 exists rd, find_rd c (rdrs s) = Some rd /\
-                           snd (h_inread s c (len <=? max_size cf0) len tag) = [OReq (r_irid rd) (r_peer rd) len tag]).
+                           snd (h_inread s c (len <=? max_size cf0) len tag) = OReq (r_irid rd) (r_peer rd) len tag :: fbl_req rd).
     { destruct (len <=? max_size cf0); [|left; apply inread_bad_plain].
       destruct (inread_good_shape s c len tag) as [[E|E] _]; [left; rewrite E; reflexivity|right; exact E]. }
     destruct (h_inread s c _ len tag) as [s1 o]. cbn [fst snd] in *.
-    assert (L : nch en <= nch (mkE (next_sid en) (conns en) (opens en)
+    assert (L : nch en <= nch (mkE (aux_of en) (next_sid en) (conns en) (opens en)
                                  (set_chan c (mkCh (c_gate ch) true false) (ch0 :: chs)) (now en) (hpend en ++ sent_of o))).
     { unfold nch. cbn [chans]. rewrite CH, set_chan_len by apply mod_lt_len. lia. }
     constructor; [exact L| | | |].
     + intros g Hg. left. rewrite F in Hg. exists g. auto.
     + intros c' rid H. exfalso. destruct O as [P|[rd [_ E]]].
       * exact (calml_nobind _ _ _ (plain_calm _ P) H).
-      * rewrite E in H. destruct H as [H|[]]. discriminate.
+      * rewrite E in H. destruct H as [H|H]; [discriminate|].
+        exact (calml_nobind _ _ _ (plain_calm _ (fbl_req_plain rd)) H).
     + intros rd H. left. rewrite R in H. unfold drop_rd in H. apply filter_In in H. tauto.
     + intros H. destruct O as [P|[rd [Fd E]]]; [rewrite (calml_noreq _ (plain_calm _ P)) in H; discriminate|].
       exists c. split; [reflexivity|]. split; [exact (mod_lt_nch k en ch0 chs CH)|]. split.
@@ -2351,6 +2427,10 @@ Proof.
     unfold h_urej. cbn [fst snd]. apply Q_facts; [|unfold nch; cbn [chans]; lia].
     split; [reflexivity|split; [apply FutsPrev_same; reflexivity|reflexivity]].
   - cbn [fst snd]. apply Q_facts; [apply Q_refl|unfold nch; cbn [chans]; lia].
+  - unfold h_burn. cbn [fst snd]. apply Q_facts; [|lia].
+    split; [reflexivity|split; [apply FutsPrev_same; reflexivity|reflexivity]].
+  - cbn [fst snd]. apply Q_facts; [apply Q_refl|unfold nch, with_aux; cbn [chans]; lia].
+  - cbn [fst snd]. apply Q_facts; [apply Q_refl|unfold nch, with_aux; cbn [chans]; lia].
 Qed.
 
 (* what one step can emit *)
@@ -2358,16 +2438,16 @@ Lemma step_shape cf0 s en e :
   let r := step cf0 (s, en) e in
   let o := snd (fst r) in
   plainl o \/
-  (exists k g c po o', e = EOpened k g /\ o = OBind c (rid_po po) :: o' /\ plainl o' /\ In po (pouts s) /\
-                       fst (fst (fst r)) = fst (opened_body cf0 s po c (N.min g 2) (now en))) \/
+  (exists k g ng c po o', e = EOpened k g ng /\ o = OBind c (rid_po po) :: o' /\ plainl o' /\ In po (pouts s) /\
+                       fst (fst (fst r)) = fst (opened_body cf0 s po c (N.min g 2) (now en) ng)) \/
   (exists k len tag c f, e = ERespond k len tag /\ snd r = Some c /\ find_fut c (futs s) = Some f /\
-                         o = [OResp (rid_f f) len tag]) \/
+                         o = OResp (rid_f f) len tag :: fbl_resp f) \/
   (exists k len tag c rd, e = EInReq k len tag /\ snd r = Some c /\ find_rd c (rdrs s) = Some rd /\
-                          o = [OReq (r_irid rd) (r_peer rd) len tag]).
+                          o = OReq (r_irid rd) (r_peer rd) len tag :: fbl_req rd).
 Proof.
   destruct e; cbn [step].
-  - left. pose proof (send_plain s p dial len tag (open_ok p en) (p <? ndial cf0) (next_sid en)) as H.
-    destruct (h_send _ _ _ _ _ _ _ _) as [s1 o]. exact H.
+  - left. match goal with |- context [h_send s p dial len tag ?fb0 ?a0 ?b0 ?c0] => pose proof (send_plain s p dial len tag fb0 a0 b0 c0) as H end.
+    destruct (h_send _ _ _ _ _ _ _ _ _) as [s1 o]. exact H.
   - left. pose proof (cancel_plain s rid) as H. destruct (h_cancel s rid) as [s1 o]. exact H.
   - left. destruct (conn_of p en); cbn [fst snd]; [reflexivity|].
     match goal with |- context [h_established s p ?n ?sd] => pose proof (established_plain s p n sd) as H end.
@@ -2377,10 +2457,10 @@ Proof.
   - left. pose proof (dialfail_plain s p) as H. destruct (h_dialfail s p) as [s1 o]. exact H.
   - destruct (nth_mod k (opens en)) as [[sid q]|]; cbn [fst snd]; [|left; reflexivity].
     unfold h_opened. destruct (find_po sid (pouts s)) as [po|] eqn:F; [|left; reflexivity].
-    pose proof (opened_body_plain cf0 s po (N.of_nat (length (chans en))) (N.min gate 2) (now en)) as P.
-    destruct (opened_body cf0 s po (N.of_nat (length (chans en))) (N.min gate 2) (now en)) as [s1 o] eqn:OB.
+    pose proof (opened_body_plain cf0 s po (N.of_nat (length (chans en))) (N.min gate 2) (now en) neg) as P.
+    destruct (opened_body cf0 s po (N.of_nat (length (chans en))) (N.min gate 2) (now en) neg) as [s1 o] eqn:OB.
     cbn [fst snd] in *.
-    right. left. exists k, gate, (N.of_nat (length (chans en))), po, o.
+    right. left. exists k, gate, neg, (N.of_nat (length (chans en))), po, o.
     split; [reflexivity|]. split; [reflexivity|]. split; [exact P|]. split; [exact (proj1 (find_in _ _ _ F))|rewrite OB; reflexivity].
   - left. destruct (nth_mod k (opens en)) as [[sid q]|]; cbn [fst snd]; [|reflexivity].
     pose proof (openfail_plain s sid unsupported) as H. destruct (h_openfail _ _ _) as [s1 o]. exact H.
@@ -2426,8 +2506,8 @@ Proof.
     destruct (fut_advance s (now en + dt)) as [s1 o]. cbn [fst snd] in *.
     apply plainl_app; [exact H|apply adv_out_plain].
   - left. destruct (conn_of p en); cbn [fst snd]; [|reflexivity].
-    pose proof (inopen_shape cf0 s p (N.of_nat (length (chans en)))) as (O & _).
-    destruct (h_inopen _ _ _ _) as [s1 o]. cbn [fst snd] in *. subst o. reflexivity.
+    pose proof (inopen_shape cf0 s p (N.of_nat (length (chans en))) neg) as (O & _).
+    destruct (h_inopen _ _ _ _ _) as [s1 o]. cbn [fst snd] in *. subst o. reflexivity.
   - (* inbound request *)
     destruct (chans en) as [|ch0 chs] eqn:CH; cbn [fst snd]; [left; reflexivity|].
     destruct (nth_error _ _) as [ch|]; cbn [fst snd]; [|left; reflexivity].
@@ -2442,6 +2522,9 @@ Proof.
     match goal with |- context [h_uresp cf0 s ?a ?b ?c ?f ?d ?e] =>
       pose proof (uresp_plain cf0 s a b c f d e) as H; destruct (h_uresp cf0 s a b c f d e) as [s1 o] end. exact H.
   - left. destruct (nth_mod k (hpend en)) as [irid|]; cbn [fst snd]; reflexivity.
+  - left. reflexivity.
+  - left. reflexivity.
+  - left. reflexivity.
   - left. reflexivity.
 Qed.
 
@@ -2564,13 +2647,14 @@ Proof.
     destruct (step cf0 (s, en) e0) as [[[s1 en1] o0] tg0]. cbn [fst snd] in *.
     destruct pre as [|x pre]; cbn [app] in E.
     + injection E as -> -> -> _. rewrite app_nil_r.
-      destruct Sh as [P|[[k0 [g0 [c [po [o' [_ [-> [P _]]]]]]]]|[[k [l [t [c [f [-> [-> [F ->]]]]]]]]|[k [l [t [c [rd [_ [_ [_ ->]]]]]]]]]]].
+      destruct Sh as [P|[[k0 [g0 [n0 [c [po [o' [_ [Eo [P _]]]]]]]]]|[[k [l [t [c [f [-> [-> [F Eo]]]]]]]]|[k [l [t [c [rd [_ [_ [_ Eo]]]]]]]]]]]; try subst o.
       * destruct (plain_not_resp _ _ _ _ P Hin).
       * destruct Hin as [Hin|Hin]; [discriminate|destruct (plain_not_resp _ _ _ _ P Hin)].
-      * destruct Hin as [Hin|[]]. injection Hin as <- <- <-.
+      * destruct Hin as [Hin|Hin]; [|destruct (plain_not_resp _ _ _ _ (fbl_resp_plain f) Hin)].
+        injection Hin as <- <- <-.
         apply find_some in F. destruct F as [Hf Hc]. apply N.eqb_eq in Hc.
         exists k, c. split; [reflexivity|]. split; [reflexivity|]. rewrite <- Hc. exact (b_fut _ _ _ _ I f Hf).
-      * destruct Hin as [Hin|[]]. discriminate.
+      * destruct Hin as [Hin|Hin]; [discriminate|destruct (plain_not_resp _ _ _ _ (fbl_req_plain rd) Hin)].
     + injection E as <- E2. destruct (IH s1 en1 _ _ I1 pre e o tg post rid len tag E2 Hin) as [k [c [A [B C]]]].
       exists k, c. split; [exact A|]. split; [exact B|]. rewrite outs_of_cons. cbn [fst snd].
       rewrite app_assoc. exact C.
@@ -2597,18 +2681,20 @@ Theorem responder_once cf0 evs :
   NoDup (req_chans steps) /\
   forall e o tg irid p len tag,
     In (e, o, tg) steps -> In (OReq irid p len tag) o ->
-    exists k c, e = EInReq k len tag /\ tg = Some c /\ o = [OReq irid p len tag].
+    exists k c rest, e = EInReq k len tag /\ tg = Some c /\ o = OReq irid p len tag :: rest /\ has_req rest = false.
 Proof.
   intros steps. split.
   - destruct (steps_Inv4 cf0 evs _ _ _ _ Inv4_init) as [s' [en' J]]. exact (u_nd _ _ _ _ J).
   - intros e o tg irid p len tag Hin Hreq.
     destruct (steps_are_steps cf0 evs _ _ Hin) as [s [en [Eo Et]]]. cbn [fst snd] in *.
     pose proof (step_shape cf0 s en e) as Sh. cbn zeta in Sh. rewrite <- Eo, <- Et in Sh.
-    destruct Sh as [P|[[k0 [g0 [c [po [o' [_ [-> [P _]]]]]]]]|[[k [l [t [c [f [_ [_ [_ ->]]]]]]]]|[k [l [t [c [rd [-> [-> [_ ->]]]]]]]]]]].
+    destruct Sh as [P|[[k0 [g0 [n0 [c [po [o' [_ [E1 [P _]]]]]]]]]|[[k [l [t [c [f [_ [_ [_ E1]]]]]]]]|[k [l [t [c [rd [-> [-> [_ E1]]]]]]]]]]].
     + destruct (plain_not_req _ _ _ _ _ P Hreq).
-    + destruct Hreq as [H|H]; [discriminate|destruct (plain_not_req _ _ _ _ _ P H)].
-    + destruct Hreq as [H|[]]. discriminate.
-    + destruct Hreq as [H|[]]. injection H as <- <- <- <-. exists k, c. auto.
+    + rewrite E1 in Hreq. destruct Hreq as [H|H]; [discriminate|destruct (plain_not_req _ _ _ _ _ P H)].
+    + rewrite E1 in Hreq. destruct Hreq as [H|H]; [discriminate|destruct (plain_not_req _ _ _ _ _ (fbl_resp_plain f) H)].
+    + rewrite E1 in Hreq. destruct Hreq as [H|H]; [|destruct (plain_not_req _ _ _ _ _ (fbl_req_plain rd) H)].
+      injection H as <- <- <- <-. exists k, c, (fbl_req rd). repeat split; [exact E1|].
+      exact (calml_noreq _ (plain_calm _ (fbl_req_plain rd))).
 Qed.
 
 (* ------------------------------------------------------------------ a request is handed to one carrier only *)
@@ -2663,7 +2749,8 @@ Qed.
 Lemma read_Keep3 s c res : Keep3 s (fst (fut_read s c res)).
 Proof.
   unfold fut_read. destruct (find_fut c (futs s)) as [f|]; [|apply Keep3_refl].
-  destruct (f_wait f); [apply complete_Keep3|apply Keep3_refl].
+  destruct (f_wait f); [|apply Keep3_refl].
+  pose proof (complete_Keep3 s f res) as H. destruct (complete s f res) as [s1 o]. exact H.
 Qed.
 Lemma cancel_Keep3 s rid : Keep3 s (fst (h_cancel s rid)).
 Proof.
@@ -2673,7 +2760,7 @@ Qed.
 Lemma same_ledger_Keep3 s s' : same_ledger s s' -> Keep3 s s'.
 Proof. intros (D & _ & P & _ & N & _). repeat split; auto. Qed.
 
-Lemma send_DP s p dial len tag ok dok sid : DP s (fst (h_send s p dial len tag ok dok sid)).
+Lemma send_DP s p dial len tag fb ok dok sid : DP s (fst (h_send s p dial len tag fb ok dok sid)).
 Proof.
   unfold h_send. simp_sets.
   destruct (memN p (peers s)); [destruct ok|destruct dial; cbn [negb]; [destruct dok|]]; cbn [fst];
@@ -2715,23 +2802,23 @@ Proof.
   pose proof (cnt_filter_le rid_po (fun x => negb (q_rid (po_req x) =? q_rid (po_req po))) r (pouts s)). lia.
 Qed.
 
-Lemma opened_body_dp cf0 s po c gate now :
-  dials (fst (opened_body cf0 s po c gate now)) = dials s /\
-  pouts (fst (opened_body cf0 s po c gate now)) = drop_po po (pouts s) /\
-  next_rid (fst (opened_body cf0 s po c gate now)) = next_rid s.
+Lemma opened_body_dp cf0 s po c gate now neg :
+  dials (fst (opened_body cf0 s po c gate now neg)) = dials s /\
+  pouts (fst (opened_body cf0 s po c gate now neg)) = drop_po po (pouts s) /\
+  next_rid (fst (opened_body cf0 s po c gate now neg)) = next_rid s.
 Proof.
-  unfold opened_body.
+  unfold opened_body. cbn [q_rid q_len q_tag q_fb].
   assert (H : forall res, let s1 := fst (settle (set_pouts s (drop_po po (pouts s))) (po_peer po) (q_rid (po_req po)) res) in
                           dials s1 = dials s /\ pouts s1 = drop_po po (pouts s) /\ next_rid s1 = next_rid s).
   { intros res. unfold settle. destruct (_ && _); cbn; auto. }
   destruct (max_size cf0 <? _); [apply H|]. destruct gate as [|[x|x|]]; try apply H; cbn; auto.
 Qed.
 
-Lemma opened_DP cf0 s sid c gate now : DP s (fst (h_opened cf0 s sid c gate now)).
+Lemma opened_DP cf0 s sid c gate now neg : DP s (fst (h_opened cf0 s sid c gate now neg)).
 Proof.
   unfold h_opened. destruct (find_po sid (pouts s)) as [po|]; [|apply Keep3_DP, Keep3_refl].
-  pose proof (opened_body_dp cf0 s po c gate now) as (D & P & N).
-  destruct (opened_body _ _ _ _ _ _) as [s1 o]. cbn [fst] in *.
+  pose proof (opened_body_dp cf0 s po c gate now neg) as (D & P & N).
+  destruct (opened_body _ _ _ _ _ _ _) as [s1 o]. cbn [fst] in *.
   split; [lia|]. intros r _. unf. rewrite D, P. unfold drop_po.
   pose proof (cnt_filter_le rid_po (fun x => negb (q_rid (po_req x) =? q_rid (po_req po))) r (pouts s)). lia.
 Qed.
@@ -2739,8 +2826,8 @@ Qed.
 Lemma step_DP cf0 s en e : DP s (fst (fst (fst (step cf0 (s, en) e)))).
 Proof.
   destruct e; cbn [step].
-  - pose proof (send_DP s p dial len tag (open_ok p en) (p <? ndial cf0) (next_sid en)) as H.
-    destruct (h_send _ _ _ _ _ _ _ _) as [s1 o]. exact H.
+  - match goal with |- context [h_send s p dial len tag ?fb0 ?a0 ?b0 ?c0] => pose proof (send_DP s p dial len tag fb0 a0 b0 c0) as H end.
+    destruct (h_send _ _ _ _ _ _ _ _ _) as [s1 o]. exact H.
   - pose proof (cancel_Keep3 s rid) as H. destruct (h_cancel s rid) as [s1 o]. exact (Keep3_DP _ _ H).
   - destruct (conn_of p en); cbn [fst]; [apply Keep3_DP, Keep3_refl|].
     match goal with |- context [h_established s p ?n ?sd] => pose proof (established_DP s p n sd) as H end. destruct (h_established _ _ _ _) as [s1 o]. exact H.
@@ -2748,8 +2835,8 @@ Proof.
     pose proof (closed_DP s p) as H. destruct (h_closed s p) as [s1 o]. exact H.
   - pose proof (dialfail_DP s p) as H. destruct (h_dialfail s p) as [s1 o]. exact H.
   - destruct (nth_mod k (opens en)) as [[sid q]|]; cbn [fst]; [|apply Keep3_DP, Keep3_refl].
-    pose proof (opened_DP cf0 s sid (N.of_nat (length (chans en))) (N.min gate 2) (now en)) as H.
-    destruct (h_opened _ _ _ _ _ _) as [s1 o]. exact H.
+    pose proof (opened_DP cf0 s sid (N.of_nat (length (chans en))) (N.min gate 2) (now en) neg) as H.
+    destruct (h_opened _ _ _ _ _ _ _) as [s1 o]. exact H.
   - destruct (nth_mod k (opens en)) as [[sid q]|]; cbn [fst]; [|apply Keep3_DP, Keep3_refl].
     pose proof (openfail_DP s sid unsupported) as H. destruct (h_openfail _ _ _) as [s1 o]. exact H.
   - destruct (chans en) as [|ch0 chs]; cbn [fst]; [apply Keep3_DP, Keep3_refl|].
@@ -2793,8 +2880,8 @@ Proof.
     unfold fut_advance. destruct (complete_all _ _ _) as [s1 o]. cbn [fst] in *.
     apply Keep3_DP. destruct H as (A & B & C). repeat split; assumption.
   - destruct (conn_of p en); cbn [fst]; [|apply Keep3_DP, Keep3_refl].
-    pose proof (inopen_same cf0 s p (N.of_nat (length (chans en)))) as [H _].
-    destruct (h_inopen _ _ _ _) as [s1 o]. exact (Keep3_DP _ _ (same_ledger_Keep3 _ _ H)).
+    pose proof (inopen_same cf0 s p (N.of_nat (length (chans en))) neg) as [H _].
+    destruct (h_inopen _ _ _ _ _) as [s1 o]. exact (Keep3_DP _ _ (same_ledger_Keep3 _ _ H)).
   - destruct (chans en) as [|ch0 chs]; cbn [fst]; [apply Keep3_DP, Keep3_refl|].
     destruct (nth_error _ _) as [ch|]; cbn [fst]; [|apply Keep3_DP, Keep3_refl].
     destruct (negb (c_out ch)); cbn [fst]; [|apply Keep3_DP, Keep3_refl].
@@ -2807,6 +2894,9 @@ Proof.
     exact (Keep3_DP _ _ (same_ledger_Keep3 _ _ H)).
   - destruct (nth_mod k (hpend en)) as [irid|]; cbn [fst]; [|apply Keep3_DP, Keep3_refl].
     unfold h_urej. cbn [fst]. apply Keep3_DP. repeat split; cbn; lia.
+  - cbn [fst]. apply Keep3_DP, Keep3_refl.
+  - unfold h_burn. cbn [fst]. apply Keep3_DP. repeat split; cbn; lia.
+  - cbn [fst]. apply Keep3_DP, Keep3_refl.
   - cbn [fst]. apply Keep3_DP, Keep3_refl.
 Qed.
 
@@ -2825,7 +2915,7 @@ Proof.
   assert (Hold : forall c rid, In (OBind c rid) tr ->
             rid < next_rid (fst (fst (fst r))) /\ (cd rid (fst (fst (fst r))) + cp rid (fst (fst (fst r))) = 0)%nat).
   { intros c rid H. destruct (I5 c rid H) as [A B]. split; [lia|]. specialize (D rid A). lia. }
-  destruct Sh as [P|[[k [g [c [po [o' [_ [Eo [P [Hpo Es]]]]]]]]]|[[k [l [t [c [f [_ [_ [_ Eo]]]]]]]]|[k [l [t [c [rd [_ [_ [_ Eo]]]]]]]]]]].
+  destruct Sh as [P|[[k [g [ng [c [po [o' [_ [Eo [P [Hpo Es]]]]]]]]]]|[[k [l [t [c [f [_ [_ [_ Eo]]]]]]]]|[k [l [t [c [rd [_ [_ [_ Eo]]]]]]]]]]].
   - split; [|intros c rid H; destruct (calml_nobind _ _ _ (plain_calm _ P) H)].
     intros c rid H. apply in_app_or in H. destruct H as [H|H]; [exact (Hold c rid H)|].
     destruct (calml_nobind _ _ _ (plain_calm _ P) H).
@@ -2834,7 +2924,7 @@ Proof.
     + intros c' rid H. apply in_app_or in H. destruct H as [H|H]; [exact (Hold c' rid H)|].
       rewrite Eo in H. destruct H as [H|H]; [|destruct (calml_nobind _ _ _ (plain_calm _ P) H)].
       injection H as <- <-. rewrite Es.
-      pose proof (opened_body_dp cf0 s po c (N.min g 2) (now en)) as (Dd & Dp & Dn).
+      pose proof (opened_body_dp cf0 s po c (N.min g 2) (now en) ng) as (Dd & Dp & Dn).
       split.
       * rewrite Dn. destruct (N.lt_ge_cases (rid_po po) (next_rid s)) as [L|L]; [exact L|].
         pose proof (inv_fresh _ _ I (rid_po po) L). lia.
@@ -2842,12 +2932,16 @@ Proof.
         pose proof (inv_ctx _ _ I (rid_po po)). unf. lia.
     + intros c' rid H. rewrite Eo in H. destruct H as [H|H]; [|destruct (calml_nobind _ _ _ (plain_calm _ P) H)].
       injection H as <- <-. exact Hcp.
-  - split; [|intros c' rid H; rewrite Eo in H; destruct H as [H|[]]; discriminate].
-    intros c' rid H. apply in_app_or in H. destruct H as [H|H]; [exact (Hold c' rid H)|].
-    rewrite Eo in H. destruct H as [H|[]]. discriminate.
-  - split; [|intros c' rid H; rewrite Eo in H; destruct H as [H|[]]; discriminate].
-    intros c' rid H. apply in_app_or in H. destruct H as [H|H]; [exact (Hold c' rid H)|].
-    rewrite Eo in H. destruct H as [H|[]]. discriminate.
+  - assert (Nb : forall c' rid, ~ In (OBind c' rid) (snd (fst r))).
+    { intros c' rid H. rewrite Eo in H. destruct H as [H|H]; [discriminate|].
+      exact (calml_nobind _ _ _ (plain_calm _ (fbl_resp_plain f)) H). }
+    split; [|intros c' rid H; destruct (Nb c' rid H)].
+    intros c' rid H. apply in_app_or in H. destruct H as [H|H]; [exact (Hold c' rid H)|destruct (Nb c' rid H)].
+  - assert (Nb : forall c' rid, ~ In (OBind c' rid) (snd (fst r))).
+    { intros c' rid H. rewrite Eo in H. destruct H as [H|H]; [discriminate|].
+      exact (calml_nobind _ _ _ (plain_calm _ (fbl_req_plain rd)) H). }
+    split; [|intros c' rid H; destruct (Nb c' rid H)].
+    intros c' rid H. apply in_app_or in H. destruct H as [H|H]; [exact (Hold c' rid H)|destruct (Nb c' rid H)].
 Qed.
 
 (* a request id is bound to at most one carrier *)
